@@ -83,7 +83,7 @@ type gpar struct {
 type gmeth struct {
 	Name     string `json:"name"`
 	PtrRecv  bool   `json:"ptr_recv,omitempty"`
-	File     int    `json:"file,omitempty"` // 0 = a.go (the file the ImportHandler is built from), 1 = b.go
+	File     int    `json:"file,omitempty"` // 0 = a.go (the file the ImportHandler is built from), 1 = b.go, 2 = 0first.go (sorts, hence is type-checked, before a.go: its methods come first)
 	Ps       []gpar `json:"ps"`
 	Rs       []gpar `json:"rs"`
 	Variadic bool   `json:"variadic,omitempty"`
@@ -120,6 +120,9 @@ type prog struct {
 	Targets []string          `json:"targets"`
 	RenameA map[string]string `json:"rename_a,omitempty"` // file a.go: path -> rename ("" = plain import)
 	RenameB map[string]string `json:"rename_b,omitempty"`
+	// file a.go imports these paths a second time, under this name ("-" = plainly), after the first
+	// spec; qualifiers alternate between the two names (both specs must be used)
+	DoubleA map[string]string `json:"double_a,omitempty"`
 }
 
 func self(p *prog) string { return modPath + "/" + p.Name }
@@ -201,6 +204,8 @@ type filePrinter struct {
 	p      *prog
 	rename map[string]string
 	used   map[string]bool
+	double map[string]string
+	uses   map[string]int
 }
 
 func (fp *filePrinter) qual(pkg string) string {
@@ -208,6 +213,18 @@ func (fp *filePrinter) qual(pkg string) string {
 		return ""
 	}
 	fp.used[pkg] = true
+	if d := fp.double[pkg]; d != "" {
+		if fp.uses == nil {
+			fp.uses = map[string]int{}
+		}
+		fp.uses[pkg]++
+		if fp.uses[pkg]%2 == 0 { // every second use goes through the second spec
+			if d == "-" {
+				return pkgNames[pkg] + "."
+			}
+			return d + "."
+		}
+	}
 	if r := fp.rename[pkg]; r != "" {
 		return r + "."
 	}
@@ -293,6 +310,13 @@ func (fp *filePrinter) file(body string) string {
 			} else {
 				b.WriteString("\t\"" + k + "\"\n")
 			}
+			if d := fp.double[k]; d != "" && fp.uses[k] >= 2 {
+				if d == "-" {
+					b.WriteString("\t\"" + k + "\"\n")
+				} else {
+					b.WriteString("\t" + d + " \"" + k + "\"\n")
+				}
+			}
 		}
 		b.WriteString(")\n\n")
 	}
@@ -328,9 +352,10 @@ const LocSize = 3
 // sources returns the files of a program package.
 func sources(p *prog) map[string]string {
 	out := map[string]string{"prelude.go": "package " + p.Name + "\n" + prelude}
-	a := &filePrinter{p: p, rename: p.RenameA, used: map[string]bool{}}
+	a := &filePrinter{p: p, rename: p.RenameA, used: map[string]bool{}, double: p.DoubleA}
 	b := &filePrinter{p: p, rename: p.RenameB, used: map[string]bool{}}
-	var ab, bb strings.Builder
+	c := &filePrinter{p: p, rename: map[string]string{}, used: map[string]bool{}}
+	var ab, bb, cb strings.Builder
 	for _, it := range p.Ifaces {
 		ab.WriteString("type " + it.Name + " interface {\n")
 		for _, e := range it.Embeds {
@@ -358,6 +383,8 @@ func sources(p *prog) map[string]string {
 			fp, w := a, &ab
 			if m.File == 1 {
 				fp, w = b, &bb
+			} else if m.File == 2 {
+				fp, w = c, &cb
 			}
 			recv := s.Name
 			if m.PtrRecv {
@@ -369,6 +396,9 @@ func sources(p *prog) map[string]string {
 	out["a.go"] = a.file(ab.String())
 	if bb.Len() > 0 {
 		out["b.go"] = b.file(bb.String())
+	}
+	if cb.Len() > 0 {
+		out["0first.go"] = c.file(cb.String())
 	}
 	return out
 }
@@ -827,7 +857,8 @@ func names(ps gencommon.Params) []string {
 }
 
 func usesQualifier(text, alias string) bool {
-	re := regexp.MustCompile(`(^|[^A-Za-z0-9_.])` + regexp.QuoteMeta(alias) + `\.`)
+	// a qualifier is followed by an identifier: `v2... T` (a variadic parameter named v2) is not one
+	re := regexp.MustCompile(`(^|[^A-Za-z0-9_.])` + regexp.QuoteMeta(alias) + `\.[\pL_]`)
 	return re.MatchString(text)
 }
 
